@@ -41,6 +41,8 @@ func presize(root string) error {
 	return db.Update(func(tx *bolt.Tx) error { return tx.DeleteBucket([]byte("verif-filler")) })
 }
 
+var diskMutating = map[string]bool{"Mkdir": true, "MkdirAll": true, "MkdirTemp": true, "Rename": true, "Remove": true, "RemoveAll": true, "Lchown": true}
+
 type rmEvent struct {
 	seq      uint64
 	dir      string
@@ -70,10 +72,19 @@ func run(t *testing.T, tape *simrt.Tape) *hx.Outcome {
 		fs.Latency = s.Tape.Draw("cfg", 2) == 1
 		snapshot.VerifLiveMounts = fs.LiveMounts
 		snapshot.VerifForceUnmount = fs.ForceUnmount
-		// disk seam: never a scheduling point inside package snapshot (write transactions are open
-		// across these calls); fault point and observer of directory removals
+		// disk seam: scheduling point before every disk call and after every mutating one (write
+		// transactions stay open across these calls: the writer lock is taken at the simulation
+		// level, see the overlay), fault point and observer of directory removals
+		snapshot.VerifTxYield = true
 		s.OSHook = func(t *simrt.Task, op string, after bool, paths []string) error {
-			if after || len(paths) == 0 {
+			if after {
+				if diskMutating[op] {
+					t.Yield("os." + op + ".done")
+				}
+				return nil
+			}
+			t.Yield("os." + op)
+			if len(paths) == 0 {
 				return nil
 			}
 			p := paths[0]
@@ -110,6 +121,18 @@ func run(t *testing.T, tape *simrt.Tape) *hx.Outcome {
 			return
 		}
 		drv = common.NewSnapDriver(s, sn, fs, root)
+		fs.OnUnmount = func(mp string, labels map[string]string) {
+			call := labels[common.CallLabel]
+			if call == "" || drv.Closing {
+				return
+			}
+			sn.Walk(ctx, func(_ context.Context, info snapshots.Info) error {
+				if info.Labels[common.CallLabel] == call {
+					s.Fail("unmount-of-live-snapshot", "backend mount %s is being unmounted although the snapshot it was mounted for (%s %q) is still in the metadata store", common.RelSnap(mp), info.Kind, info.Name)
+				}
+				return nil
+			})
+		}
 		drv.Faulty = diskFaultDen > 0
 		// base chain of ordinary committed snapshots
 		var committed []string
@@ -212,16 +235,8 @@ func run(t *testing.T, tape *simrt.Tape) *hx.Outcome {
 		}
 		// ---- quiescent point: global invariants ----
 		fs.Quiet = true
-		// (G1) a backend mount is unmounted only after its snapshot has been removed
-		for _, e := range fs.Events {
-			if e.Op == "unmount" && e.OK {
-				dir := filepath.Dir(e.MP)
-				if at, ok := drv.RemovedAt[dir]; !ok || at > e.Seq {
-					s.Fail("unmount-of-live-snapshot", "backend mount %s was unmounted at seq %d although the snapshot owning that directory had not been removed (removal seq %v)", common.RelSnap(e.MP), e.Seq, drv.RemovedAt[dir])
-					return
-				}
-			}
-		}
+		// (G1) a backend mount is unmounted only after its snapshot has been removed: checked at the
+		// instant of every successful Unmount against the metadata store (fs.OnUnmount below)
 		// (G2) ... and always before its directory is deleted
 		for _, r := range rmEvents {
 			if r.liveThen && !r.attempt {
